@@ -703,3 +703,9 @@ func sameBlockStore(load *ssa.UnOp, cell *ssa.Alloc) *ssa.Store {
 	}
 	return nil
 }
+
+// RetNil reports whether result k of return r is nil on every path reaching it
+// (looking through the defer spill).
+func RetNil(r *ssa.Return, k int) bool {
+	return k < len(r.Results) && AllOrigins(r.Results[k], IsNilConst)
+}
